@@ -4,7 +4,7 @@ from props import _objcheckout_common as C
 from props import _objcheckout_single as S
 
 PROPERTY = "C10"
-GEN = ["types", "odiff", "relink"]
+GEN = ["types", "odiff", "relink", "objcheckout"]
 RULE = (
     "(prior, target) pairs over <=5 nested paths (duplicates, empty files, paths only in the prior or only in "
     "the target, user-edited files) with every target object cached and force on x the 3x3 matrix existing "
